@@ -21,7 +21,8 @@ Mysrv == <<95, 109, 121, 115, 114, 118>>
 Local == <<108, 111, 99, 97, 108>>
 A1 == <<97>>
 
-Names == {<<Foo, Bar>>, <<Foobar>>, <<My, Local>>, <<Mysrv, Local>>, <<A1, Mysrv, Local>>, <<Local>>, <<Bar>>}
+Names == {<<Foo, Bar>>, <<Foobar>>, <<My, Local>>, <<Mysrv, Local>>, <<A1, Mysrv, Local>>, <<Local>>, <<Bar>>,
+          <<Bar, A1, Mysrv, Local>>}
 
 Rec(n, t, c, rd) == [name |-> n, class |-> c, type |-> t, rd |-> rd]
 Catalogue ==
@@ -65,6 +66,7 @@ ReplyBounds ==
     LET impl == ImplAnswers(auth, names, <<q>>, KeyMode) IN
     /\ impl \subseteq UpperAnswers(auth, <<q>>)
     /\ LowerAnswers(auth, <<q>>) \subseteq impl
+    /\ \A a \in ImplAdditionals(auth, names, impl, KeyMode) : AdditionalOK(auth, impl, a)
 
 \* C20: visible cached records (what a cached-only query may return at this instant)
 VisibleCached == {k \in DOMAIN cached : clock < cached[k]}
